@@ -56,6 +56,10 @@ func (x *g) knobs() {
 		k.BufSize = 65536
 	case 1:
 		k.BufSize = 262144
+	case 2:
+		// below the minimum: the library rounds up to two read blocks
+		k.BufSize = 16384
+		k.BufCfg = []int{1, 4096, 8192, 8193, 12000}[r.Intn(5)]
 	default:
 		k.BufSize = 16384
 	}
@@ -154,7 +158,31 @@ func (x *g) pub(ci int, qosMax int) Op {
 	if op.QoS > 0 {
 		op.PID = x.nextPID(ci)
 	}
+	if r.Bool(1, 12) {
+		op.Size = x.boundarySize(op.Topic, op.QoS)
+	}
 	return op
+}
+
+// boundarySize returns a payload size that puts the remaining length of the
+// PUBLISH packet - as sent, or as re-encoded for a QoS 0 subscriber (no packet
+// identifier) - exactly onto a boundary of the variable-length encoding
+// (127|128, and with a large enough ring 16383|16384).
+func (x *g) boundarySize(topic string, qos byte) int {
+	r := x.r
+	targets := []int{127, 128}
+	if x.sc.Knobs.BufSize-8192-64 >= 16384+8 {
+		targets = append(targets, 16383, 16384, 16383, 16384)
+	}
+	t := targets[r.Intn(len(targets))]
+	n := t - 2 - len(topic)
+	if qos > 0 && r.Bool(1, 2) {
+		n -= 2 // the boundary is hit by the packet as sent; otherwise by its QoS 0 form
+	}
+	if n < 8 {
+		n = 8
+	}
+	return n
 }
 
 func (x *g) sub(ci int, maxFilters int) Op {
@@ -439,9 +467,18 @@ func genSuback(prop string) func(tier string, seed uint64, idx int) interface{} 
 					if r.Bool(1, 3) {
 						n = 4 + r.Intn(9)
 					}
+					big := r.Bool(1, 12)
+					if big {
+						// enough filters to push the SUBACK's remaining length (2 + n)
+						// across the one-byte limit of its encoding
+						n = []int{124, 125, 126, 127, 128, 200}[r.Intn(6)]
+					}
 					op := Op{K: "sub", PID: x.nextPID(ci)}
 					for j := 0; j < n; j++ {
 						f := x.filter()
+						if big && j%4 != 0 {
+							f = fmt.Sprintf("big%d/%d", ci, j)
+						}
 						switch r.Intn(12) {
 						case 0:
 							f = invalidFilters[r.Intn(len(invalidFilters))]
